@@ -61,5 +61,5 @@ Definition chk_mask_users (c : list N * list (msrc * option qrect * option (list
 (* boolean form of C18_primitive_params_equiv for the model-level search *)
 Definition thm_params (c : fparam * qrect) : bool :=
   let '(p, B) := c in
-  negb (Qltb 0 (rw B) && Qltb 0 (rh B) && negb (KnownClass_morph_fallback p))
+  negb (Qltb 0 (rw B) && Qltb 0 (rh B))
   || rparam_eqb (resolve_param p (rw B, rh B)) (resolve_param (map_param p B) (1, 1)).
